@@ -21,6 +21,7 @@ type Ctx struct {
 	nilA  *nilAnalysis
 	typImm int
 	wantBnd bool
+	concurrent bool
 	lockSetCache map[*ssa.Function][]*Term
 	censusOnly func(what, detail string) bool
 	proveCache map[*State]map[string]bool
